@@ -389,6 +389,32 @@ def _r4(repo, L, idx, proc: Func, roles):
     if len(loops) != 1:
         raise AnalysisError("match loop not found in process_seq_buffer")
     lp = loops[0]
+    # every run handed to the merge logic is a match of the run regex: the loop iterates the finditer(...) result itself, or
+    # a container whose every definition is built from it
+    def from_regex(e, depth=0):
+        if isinstance(e, ast.Call) and (dotted(e.func) or "") in ("re.finditer", "re.findall"):
+            return True
+        if isinstance(e, ast.ListComp | ast.GeneratorExp) and len(e.generators) == 1 and not e.generators[0].ifs:
+            return from_regex(e.generators[0].iter, depth)
+        if isinstance(e, ast.Call) and dotted(e.func) in ("list", "tuple", "iter") and len(e.args) == 1:
+            return from_regex(e.args[0], depth)
+        if isinstance(e, ast.Name) and depth < 3:
+            from ..util import local_defs
+
+            ds = local_defs(proc, e.id)
+            return bool(ds) and all(from_regex(d, depth + 1) for d in ds)
+        return False
+
+    if not from_regex(lp.iter):
+        srcs = [norm(lp.iter)[:50]]
+        if isinstance(lp.iter, ast.Name):
+            from ..util import local_defs
+
+            srcs = [norm(d)[:60] for d in local_defs(proc, lp.iter.id)]
+        L.fail("R2", proc.short + ":runs-from-regex", f"the runs that become fragments are taken from {srcs}: at least one source is not a match of the ACGT run pattern, so non-ACGT symbols (IUPAC codes, '-', '*') can be absorbed into a fragment instead of becoming a gap", proc.loc(lp), witness={"buffer": "a flush containing an ambiguity code but no N"})
+        return
+    if not isinstance(lp.target, ast.Name):
+        raise AnalysisError("process_seq_buffer: the match loop unpacks its items (not a plain match object): form not understood")
     mv = lp.target.id
     cons = roles["length"]
     # role discovery inside the loop
